@@ -754,12 +754,14 @@ func utf8Valid(fr *frame, a []Value) Value {
 			bs = append(bs, x.At(p, i))
 		}
 	case Slice:
-		if x.arr != nil || !x.ln.IsConst() || !x.off.IsConst() {
-			panic(inconclusive{"utf8.Valid on a slice of symbolic extent"})
+		if x.arr != nil {
+			panic(inconclusive{"utf8.Valid on a solver-array backed slice"})
 		}
-		for i := uint64(0); i < x.ln.Val; i++ {
-			th.eng.access(th, &x.data[x.off.Val+i], false)
-			bs = append(bs, x.data[x.off.Val+i].(*Term))
+		off := th.eng.path.Concretize(x.off, "utf8.Valid offset")
+		ln := th.eng.path.Concretize(x.ln, "utf8.Valid length")
+		for i := uint64(0); i < ln; i++ {
+			th.eng.access(th, &x.data[off+i], false)
+			bs = append(bs, x.data[off+i].(*Term))
 		}
 	default:
 		panic(inconclusive{fmt.Sprintf("utf8.Valid on %T", a[0])})
